@@ -162,6 +162,115 @@ def mon_history(sh, seed, i, tier, valid, synbad, sembad):
             sh.count('obs.grammar_fingerprint_checks')
 
 
+def mon_filehistory(sh, seed, i, tier, valid):
+    """history through the path-based entry points: the same path is parsed, the file is rewritten with another document
+    (same size, same time stamp), the path is parsed again: the outcome is the one of the document that is in the file now"""
+    import re
+    import tempfile
+    from pathlib import Path
+    from pydbml import PyDBML
+    rng = random.Random(f'{seed}-fh-{i}')
+    tmpdir = tempfile.mkdtemp(prefix='pv-c11-', dir=os.environ.get('PV_SCRATCH') or None)
+    try:
+        for h in range({'quick': 6, 'thorough': 60}[tier]):
+            d = rng.choice(valid)
+            if d['props']:
+                continue
+            text = d['text']
+            ms = list(re.finditer(r'\d', text))
+            if not ms:
+                continue
+            m_ = rng.choice(ms)
+            text2 = text[:m_.start()] + str((int(m_.group()) + 1) % 10) + text[m_.end():]
+            pth = os.path.join(tmpdir, f'h{h}.dbml')
+            with open(pth, 'w', encoding='utf8', newline='') as f:
+                f.write(text)
+            st = os.stat(pth)
+            for name, th in (('PyDBML(Path)', lambda: PyDBML(Path(pth))), ('parse_file(str)', lambda: PyDBML.parse_file(pth))):
+                with open(pth, 'w', encoding='utf8', newline='') as f:
+                    f.write(text)
+                os.utime(pth, ns=(st.st_atime_ns, st.st_mtime_ns))
+                try:
+                    th()
+                except Exception:  # noqa
+                    pass
+                with open(pth, 'w', encoding='utf8', newline='') as f:
+                    f.write(text2)
+                os.utime(pth, ns=(st.st_atime_ns, st.st_mtime_ns))
+                want = out_digest({'text': text2, 'props': False})[0]
+                try:
+                    db = th()
+                    got = 'OK:' + digest([walk.content(db), db.dbml, db.sql])
+                except Exception as e:  # noqa
+                    got = 'EXC:' + type(e).__name__
+                sh.case(['filehist', h, name], nontrivial=True, sample={'monitor': 'file-history', 'route': name})
+                sh.count('obs.file_histories')
+                if got != want:
+                    sh.violation('history', f'history:path-parse-returns-earlier-file-content:{name}',
+                                 f'{name}: after the file was rewritten the outcome is {got[:24]}, the document now in the file gives {want[:24]}',
+                                 {'kind': 'filehist', 'text': text, 'text2': text2, 'route': name})
+    finally:
+        import shutil
+        shutil.rmtree(tmpdir, ignore_errors=True)
+
+
+def mon_interleaved(sh, seed, i, tier, valid):
+    """two parser objects exist at the same time (both constructed, then parsed in either order; a third parse in between):
+    each still gives the outcome its document has on its own.  Uses the parser class of pydbml.parser (found by scan: a
+    class there with a parse() method whose constructor takes the source); not applicable if there is none."""
+    import inspect
+    import pydbml.parser.parser as P
+    cls = None
+    for c in vars(P).values():
+        if isinstance(c, type) and c.__module__ == P.__name__ and callable(getattr(c, 'parse', None)) and c.__name__ != 'PyDBML':
+            try:
+                params = list(inspect.signature(c.__init__).parameters)
+            except (TypeError, ValueError):
+                continue
+            if len(params) >= 2 and 'allow_properties' in params:
+                cls = c
+    if cls is None:
+        sh.count('obs.interleaved_not_applicable')
+        return
+    rng = random.Random(f'{seed}-inter-{i}')
+
+    def dig(db):
+        return 'OK:' + digest([walk.content(db), db.dbml, db.sql])
+
+    def run(p):
+        try:
+            return dig(p.parse())
+        except Exception as e:  # noqa
+            return 'EXC:' + type(e).__name__
+    n = {'quick': 10, 'thorough': 200}[tier]
+    for h in range(n):
+        if sh.out_of_time():
+            break
+        if h % 2 == 0:
+            k = rng.randrange(4)
+            a, b = valid[k], rng.choice([valid[-8 + k], valid[-4 + k]])      # an enum-declaring document and a name-sake of it
+        else:
+            a, b = rng.sample(valid, 2)
+        ra, rb = out_digest(a)[0], out_digest(b)[0]
+        for order in ('ab', 'ba', 'a-x-b'):
+            pa = cls(a['text'], allow_properties=a['props'])
+            pb = cls(b['text'], allow_properties=b['props'])
+            if order == 'ab':
+                ga, gb = run(pa), run(pb)
+            elif order == 'ba':
+                gb, ga = run(pb), run(pa)
+            else:
+                ga = run(pa)
+                out_digest(rng.choice(valid))
+                gb = run(pb)
+            sh.case(['inter', h, order], nontrivial=True, sample={'monitor': 'interleaved', 'order': order})
+            sh.count('obs.interleaved')
+            if ga != ra or gb != rb:
+                sh.violation('history', 'history:two-live-parsers-influence-each-other',
+                             f'order {order}: outcomes {ga[:24]}, {gb[:24]} vs on their own {ra[:24]}, {rb[:24]}',
+                             {'kind': 'interleaved', 'a': a, 'b': b, 'order': order})
+
+
 def mon_isolation(sh, seed, i, tier, valid):
     from pydbml.classes import Column, Table, Note
     rng = random.Random(f'{seed}-iso-{i}')
@@ -272,6 +381,16 @@ def run_workers(sh, seed, i, tier, valid, synbad, sembad):
         perturb = ['victim', 'victim', 'switch', 'victim', 'switch'][r % 5]
         docs = [rng.choice(valid) for _ in range(6)] + [rng.choice(synbad), rng.choice(sembad)]
         rng.shuffle(docs)
+        docset = ['pool', 'pool', 'shared-text', 'same-document'][r % 4] if r else 'pool'
+        if docset == 'shared-text':
+            # every thread's document ends with the same long sticky note and the same long table note (equal texts in
+            # documents that are parsed at the same time), the rest of each document is its own
+            body = '\n'.join(f'    shared line {n} of the common note' for n in range(rng.choice([20, 150])))
+            tail = f"\nNote shared_sticky {{\n'''\n{body}\n'''\n}}\nTable shared_tail {{\n  id int [note: '''\n{body}\n''']\n  Note: '''\n{body}\n  '''\n}}\n"
+            docs = [{'text': d['text'] + tail, 'props': d['props']} for d in docs]
+        elif docset == 'same-document':
+            docs = [docs[0]] * 4 + [docs[1]] * 4
+        sh.count('obs.schedule_docsets.' + docset)
         spec = {'mode': mode, 'nthreads': 8, 'rounds': 1 if mode == 'first' else 6, 'perturb': perturb, 'seed': f'{seed}-{i}-{r}',
                 'docs': docs, 'victim': rng.randrange(8), 'p': rng.choice([0.1, 0.3, 0.6]), 'switchinterval': rng.choice([1e-6, 1e-5, 1e-4])}
         sf = os.path.join(scratch, f'c11-{i}-{r}.json')
@@ -328,6 +447,8 @@ def run_shard(spec, tier, seed, budget_s):
         sh.count('obs.pool_invalid_documents_rejected', ok_bad)
     run_workers(sh, seed, i, tier, valid, synbad, sembad)      # first: fresh worker processes
     mon_history(sh, seed, i, tier, valid, synbad, sembad)
+    mon_interleaved(sh, seed, i, tier, valid)
+    mon_filehistory(sh, seed, i, tier, valid)
     mon_isolation(sh, seed, i, tier, valid)
     mon_reclaim(sh, seed, i, tier, valid, synbad, sembad)
     return sh
